@@ -1,5 +1,81 @@
-import DeltaModel.Machine
+import Proofs.Machine.Run
+/-!
+C01 — every hunk line is shown exactly once, in order, with its text intact (unified view).
+
+Model: `DeltaModel/Machine.lean` (the line state machine and the painter buffers), tied to
+/repo by the generated handler order / marker literals / tail order and by the `machine.run`
+correspondence. Theorems here are about `Machine.run`/`Machine.step`, the functions the model
+driver executes.
+
+`timeline m` is everything rendered so far in the order in which it reaches the writer
+(`out ++ buf ++ minus rows ++ plus rows`).
+-/
 namespace C01
-theorem placeholder_handlers_known :
+open Machine Headers
+
+/-- Every handler named in `StateMachine::consume` (generated list) has a model function. -/
+theorem handlers_known :
     ∀ n ∈ Generated.handlerOrder, (Machine.handlerOf n).isSome = true := by decide
+
+/-- `flush_before_direct_write`. For every configuration and every input: at every write that goes
+straight to the writer, the output buffer and both line buffers are empty — nothing rendered
+earlier can be overtaken. (`orderOk` is the ghost flag that `direct` clears otherwise.)
+False on the pinned tree before the `fix:` commits 6ae80a7, 5983605, d81cfd9, 6f58d9a, 7146d00. -/
+theorem flush_before_direct_write {cfg : Cfg} {ls : List L} {m : M} (e : run cfg ls = .ok m) :
+    m.orderOk = true := (run_spec e).1
+
+/-- the ghost flag does detect an out-of-order write (the theorem above is not vacuous) -/
+example : (direct ({ buf := [⟨.zero, ['x'], 0⟩] } : M) [⟨.raw, ['y'], 1⟩]).orderOk = false := by decide
+example : (direct ({ minus := [⟨.minus, [], ['x'], 0⟩] } : M) [⟨.raw, ['y'], 1⟩]).orderOk = false := by decide
+
+/-- `nothing_dropped_or_reordered`. Once a row has been rendered it stays where it is: each input
+line only appends to the timeline (never removes, duplicates or reorders what is there), in every
+reachable state, for every configuration. -/
+theorem nothing_dropped_or_reordered {cfg : Cfg} {m m' : M} {l : L} (g : Good m)
+    (e : step cfg m l = .ok m') : Good m' ∧ ∃ new, timeline m' = timeline m ++ new :=
+  ⟨(step_spec e g).1, (step_spec e g).2.1⟩
+
+/-- … and at the end of the input the whole timeline, and nothing else, has been written. -/
+theorem output_is_timeline {cfg : Cfg} {ls : List L} {m : M} (e : run cfg ls = .ok m) :
+    timeline m = m.out := (run_spec e).2
+
+/-- `hunk_line_exactly_once`. Whenever the machine is in a hunk (any reachable state), the next
+input line is claimed by the hunk-line handler and contributes exactly one new row `r`, placed at
+the very end of the timeline, attributed to that line (`r.src`); the only rows that can precede it
+in this step are those of the pending hunk header (none of them a hunk-line row). Combined with
+`nothing_dropped_or_reordered` and `output_is_timeline`: each hunk line is shown exactly once, in
+input order, never merged with or moved past another row. -/
+theorem hunk_line_exactly_once {cfg : Cfg} {m m' : M} {l : L} {b : Bool} (g : Good m)
+    (hs : isHunkState m.st = true) (e : handleHunkLine cfg m l = .ok (b, m')) :
+    b = true ∧ ∃ pre r, timeline m' = timeline m ++ pre ++ [r] ∧ r.src = m.n ∧
+      ∀ x ∈ pre, x.kind ≠ .minus ∧ x.kind ≠ .plus ∧ x.kind ≠ .zero ∧ x.kind ≠ .other := by
+  rcases handleHunkLine_spec e g with ⟨_, _, h⟩ | ⟨hb, _, s⟩
+  · rw [hs] at h; cases h
+  · exact ⟨hb, s.row⟩
+
+/-- the initial machine is `Good`, and `Good` is an invariant (so the hypotheses above are met by
+every reachable state) -/
+theorem reachable_good {cfg : Cfg} {ls : List L} {m : M} (e : runFrom cfg {} ls = .ok m) : Good m :=
+  (runFrom_spec ls e good_init).1
+
+/-- `prepare_text`: the text of a hunk row is the input line with the marker column(s) removed
+and tabs expanded, nothing else (ASCII marker columns, the only case git produces). -/
+theorem prepare_text (cfg : Cfg) (n : Nat) (l : L) (hne : l.text ≠ [])
+    (hlen : n ≤ l.text.length) (hascii : (l.text.take n).all (fun c => c.toNat < 128) = true) :
+    prepare cfg n l = Text.expand cfg.tab (l.text.drop n) := by
+  unfold prepare
+  simp [hne, hlen, hascii]
+
+/-- with tab width 0 the text is exactly the line minus its marker column -/
+theorem prepare_text_tab0 (cfg : Cfg) (l : L) (c : Char) (rest : Str) (ht : cfg.tab = 0)
+    (hl : l.text = c :: rest) (hc : c.toNat < 128) : prepare cfg 1 l = rest := by
+  unfold prepare
+  simp [hl, hc, Text.expand, ht]
+
+def exampleLine : L :=
+  { raw := "+a\tb".toList, text := "+a\tb".toList, graphemes := [], commitRe := false,
+    blame := false, grep := 0, submodule := none }
+
+example : prepare {} 1 exampleLine = "a        b".toList := by decide
+
 end C01
